@@ -6,5 +6,5 @@ CONSTANTS
   HopCounts = {0, 1}
   NbSendFails = FALSE
   ClearReadable = TRUE
-INVARIANTS ReplyRouting HoldSound NoLostWakeup PollR PollW
+INVARIANTS ReplyRouting HoldSound NoLostWakeup PollR PollW ClosedIsFinal
 VIEW View
